@@ -176,8 +176,7 @@ class InvQuadLogdet(Function):
         # Fix grad_output sizes
         if ctx.inv_quad:
             inv_quad_grad_output = inv_quad_grad_output.unsqueeze(-2)
-        logdet_grad_output = logdet_grad_output.unsqueeze(-1)
-        logdet_grad_output.unsqueeze_(-1)
+        logdet_grad_output = logdet_grad_output.unsqueeze(-1).unsqueeze(-1)
 
         # Un-normalize probe vector solves
         coef = 1.0 / ctx.probe_vectors.size(-1)
